@@ -3,7 +3,11 @@ package yqlib
 import (
 	"io"
 	"strings"
+
+	yaml "gopkg.in/yaml.v3"
 )
+
+var c17Tag string
 
 // C17 — @sh and -o=shell output is injection-safe and expands to the exact value.
 
@@ -177,20 +181,28 @@ func VerifC17ShellVars() {
 	shape := verifChoice("shape", 4)
 	key := verifStr("key", L, "\x01\x7f")
 	v1 := verifStr("v1", L, "\x01\x7f")
+	// the scalar's tag: a string, or a core tag written explicitly / assigned by an expression (`!!int $(x)`, `~`)
+	c17Tag = "!!str"
+	if verifParam("typed", 0) == 1 {
+		c17Tag = []string{"!!int", "!!null", "!!bool", "!!float", "!custom"}[verifChoice("tag", 5)]
+		verifAssume(shape == 0 || shape == 3)
+		verifAssume(verifEqStr(key, "k"))
+	}
 	var root *CandidateNode
 	var wantVals []string
+	val := func() *yaml.Node { return vS(c17Tag, v1) }
 	switch shape {
 	case 0: // {key: v1}
-		root = vDoc(vMap(vStr(key), vStr(v1)))
+		root = vDoc(vMap(vStr(key), val()))
 		wantVals = []string{v1}
 	case 1: // {key: {key: v1}}
-		root = vDoc(vMap(vStr(key), vMap(vStr(key), vStr(v1))))
+		root = vDoc(vMap(vStr(key), vMap(vStr(key), val())))
 		wantVals = []string{v1}
 	case 2: // {key: [v1, v1]}
-		root = vDoc(vMap(vStr(key), vSeq(vStr(v1), vStr(v1))))
+		root = vDoc(vMap(vStr(key), vSeq(val(), val())))
 		wantVals = []string{v1, v1}
 	default: // bare scalar
-		root = vDoc(vStr(v1))
+		root = vDoc(val())
 		wantVals = []string{v1}
 	}
 	var sb strings.Builder
@@ -221,4 +233,10 @@ func VerifC17ShellVars() {
 		}
 	}
 	verifCover("C17/shellvars/end")
+}
+
+// VerifC17ShellVarsTyped: the same obligations for scalars that carry a core (or custom) tag while their text is
+// arbitrary — `n: !!int $(touch x)`, a `~` null, a value retagged by an expression.
+func VerifC17ShellVarsTyped() {
+	VerifC17ShellVars()
 }
